@@ -46,11 +46,35 @@ int vnadata_set_z0_vector(vnadata_t *vdp,
     }
     ports = MAX(vdp->vd_rows, vdp->vd_columns);
     if (vdip->vdi_flags & VF_PER_F_Z0) {
+	double complex *copy = NULL;
+
+	/*
+	 * The caller's vector may be one of our own per-frequency
+	 * vectors (from vnadata_get_fz0_vector), which the conversion
+	 * frees: copy it first.
+	 */
+	if (ports > 0) {
+	    if ((copy = malloc(vdip->vdi_p_allocation *
+			    sizeof(double complex))) == NULL) {
+		_vnadata_error(vdip, VNAERR_SYSTEM,
+			"malloc: %s", strerror(errno));
+		return -1;
+	    }
+	    (void)memcpy((void *)copy, (void *)z0_vector,
+		    ports * sizeof(double complex));
+	}
 	if (_vnadata_convert_to_z0(vdip) == -1) {
+	    free((void *)copy);
 	    return -1;
 	}
+	if (ports > 0) {
+	    (void)memcpy((void *)vdip->vdi_z0_vector, (void *)copy,
+		    ports * sizeof(double complex));
+	}
+	free((void *)copy);
+	return 0;
     }
-    (void)memcpy((void *)vdip->vdi_z0_vector, (void *)z0_vector,
+    (void)memmove((void *)vdip->vdi_z0_vector, (void *)z0_vector,
 	    ports * sizeof(double complex));
     return 0;
 }
